@@ -101,6 +101,18 @@ func tuneForProperty(c *Config, prop string, r *core.Rand) {
 		// relay traffic needs applications whose allowance covers tens of relays per node
 		c.BaseRelaysPerPOKT = int64([]int{20000, 200000}[r.Intn(2)])
 		c.ClaimExpiration = int64(r.Range(8, 30))
+		// a session needs SessionNodeCount servicers on the chain; the second chain is served by
+		// every other genesis node only
+		if half := int64(c.NNodes / 2); c.SessionNodeCount > half && r.Chance(0.8) {
+			c.SessionNodeCount = half
+			if c.SessionNodeCount < 1 {
+				c.SessionNodeCount = 1
+			}
+		}
+		if prop == "C32" && r.Chance(0.5) {
+			// short-lived claims, so that expiry of unproved claims is reached inside a run
+			c.ClaimExpiration = c.ClaimWindow + int64(r.Range(1, 3))
+		}
 		if prop == "C26" && r.Chance(0.5) {
 			delete(c.Features, "RSCAL") // reward formula exact in integers
 		}
@@ -505,6 +517,26 @@ func (g *generator) genTx() *Step {
 			st.SignKey = appBase + r.Intn(c.NApps)
 			st.From = 950 + r.Intn(6)
 			st.Amount = 0
+			if r.Chance(0.35) && v != nil {
+				// onto a key that already has an application record (staked, unstaking, jailed):
+				// must be refused, or that application's record and stake would be overwritten
+				var taken, unstaking []int
+				for addr, a := range v.Apps {
+					if i := s.keyIndexOf(addr); i >= 0 && i != st.SignKey {
+						taken = append(taken, i)
+						if a.Status == sdk.Unstaking {
+							unstaking = append(unstaking, i)
+						}
+					}
+				}
+				sort.Ints(taken)
+				sort.Ints(unstaking)
+				if len(unstaking) > 0 && r.Chance(0.7) {
+					st.From = unstaking[r.Intn(len(unstaking))]
+				} else if len(taken) > 0 {
+					st.From = taken[r.Intn(len(taken))]
+				}
+			}
 		} else {
 			if r.Chance(0.4) && c.NSpare > 0 {
 				st.From = spareBase + r.Intn(c.NSpare)
@@ -540,6 +572,10 @@ func (g *generator) genTx() *Step {
 		st.SignKey = st.From
 		st.To = g.pick(g.allKeys())
 		st.Action = []string{"dao_transfer", "dao_transfer", "dao_burn"}[r.Intn(3)]
+		if r.Chance(0.12) {
+			// to a module account, the DAO's own included (a transfer to itself must leave it unchanged)
+			st.ToMod = []string{"dao", "dao", "fee_collector"}[r.Intn(3)]
+		}
 		dao := int64(0)
 		if v != nil {
 			dao = v.ModuleBalance("dao").Int64()
